@@ -431,6 +431,8 @@ SEEDS = ["/\t/evil.com", "\t//evil.com", " //evil.com", "\x01//evil.com", "\thtt
          "\n//evil.com", "/\r/evil.com", "/\n/evil.com", "\t", " ", "\t\t//evil.com", "/\t\t/evil.com", "\t/\t/evil.com",
          "\u212a://evil.com/x", "\u017f://evil.com", "\u0130://evil.com", "\u0131:x", "\uff0f\uff0fevil.com",
          "\u2028//evil.com", "\u3000//evil.com", "\x85//evil.com", "\xa0//evil.com", "htt\u212a://evil.com",
+         "web+evil://evil.example/x", "a-b://evil.example/x", "a.b://evil.example/x", "x+y-z.9://evil.example/x",
+         "h2://evil.example/", "web+evil:evil.example", "z-://evil.example",
          "x:\t//evil.com", "1http://evil.com", "+://evil.com", ".://evil.com", "a.b://evil.com", "a-b:c", "A1:", "z9+.-:x"]
 ABSOLUTE = ["http://example.com/", "https://example.com/path?x=1#f", "HTTP://Example.com/a/../b?", "http://example.com/a b\tc",
             "ftp://example.com/%7e", "http://example.com", "mailto:user@example.com", "http:foo", "HTTPS://example.com:443/",
@@ -444,10 +446,19 @@ def strings_upto(alphabet, n):
             yield "".join(t)
 
 
+SCHEME_TAIL = "ab19+-.Zz0"
+
+
 def rand_value(rng, maxlen=7):
     r = rng.random()
     if r < 0.15:
         return rng.choice(SEEDS)
+    if r < 0.25:      # scheme-like prefix [A-Za-z][A-Za-z0-9+.-]*: that is not <alpha>+: (keeps + - . digits in play)
+        p = rng.choice("awXz") + "".join(rng.choice(SCHEME_TAIL) for _ in range(rng.randrange(1, 5)))
+        if p.isalpha():
+            p += rng.choice("+-.7")
+        return p + ":" + rng.choice(["//evil.example/x", "/\\evil.example", "evil.example", "", "//evil.example:80/?q#f",
+                                     "\t//evil.example"])
     alpha = ALPHABET if r < 0.6 else ALPHABET + EXTRA
     s = "".join(rng.choice(alpha) for _ in range(rng.randrange(0, maxlen + 1)))
     if rng.random() < 0.5:
@@ -616,6 +627,282 @@ def history_stage(ctx, seeds_only=False):
     if msg:
         ctx.fail("response:order-dependent", msg, {"kind": "order", "items": [[e_, v_] for e_, v_ in items]}, True, "order")
     ctx.oracle_count("order", 2 * len(items), len(items))
+
+
+
+# ============================================================================ configurations, argument shapes, value domains
+KNOWN_SCHEMES = ("http", "https", "ws", "wss", "ftp")        # in urllib's uses_relative and uses_netloc
+SET_RESPONSE = ["headerlist", "tuple", "dict", "ctor", "attr", "headers"]
+SET_MOVE = ["kw", "pos", "headers", "headers_dict", "attr_after", "headers_and_kw"]
+STATUSES_ANY = [302, "302 Found", "302 Go Away", 301, "201 Created", 200, "200 Fine", "404 Not Found", "500 Oops"]
+ACCEPTS = [None, "", "text/html", "application/json", "*/*", "text/plain;q=0.5, application/json", "garbage;;"]
+
+
+def build_cfg_app(case):
+    """The WSGI app of a configured case; constructor-time refusals propagate as exceptions."""
+    from webob import Response, exc
+    cfg, v = case["cfg"], case.get("value")
+    if case["app"] == "move":
+        cls = getattr(exc, case["class"])
+        if cfg.get("subclass") == "empty_body":
+            cls = type("EmptyBodyMove", (cls,), {"empty_body": True})
+        kw = {}
+        if cfg.get("detail"):
+            kw.update(detail="moved <b>", comment="c -->")
+        if cfg.get("template"):
+            kw["body_template"] = "go to ${location} (${detail}) ${HTTP_HOST}"
+        how = cfg.get("set") or "kw"
+        key = case.get("key") or "Location"
+        if case.get("add_slash"):
+            if how in ("headers", "headers_dict") and v is not None:      # a Location smuggled in by headers= is overridden
+                app = cls(headers=[(key, v)] if how == "headers" else {key: v}, add_slash=1, **kw)
+            else:
+                app = cls(add_slash=True, **kw)
+        elif how == "kw":
+            app = cls(location=v, **kw)
+        elif how == "pos":
+            app = cls(kw.get("detail"), None, kw.get("comment"), kw.get("body_template"), v)
+        elif how == "headers":
+            app = cls(headers=[("X-Other", "1"), (key, v)], **kw)
+        elif how == "headers_dict":
+            app = cls(headers={key: v}, **kw)
+        elif how == "attr_after":
+            app = cls(**kw)
+            app.location = v
+        else:  # headers_and_kw: the keyword wins
+            app = cls(headers=[(key, "http://wrong.example/")], location=v, **kw)
+        if cfg.get("body") == "explicit":
+            app.body = b"explicit body"
+        return app
+    base = [("Content-Type", "text/plain"), ("Content-Length", "10"), ("ETag", '"tag"')]
+    pairs = [(case.get("key") or "Location", v)] + [tuple(x) for x in case.get("extra_locations") or []]
+    cond = case["app"] == "conditional"
+    exit_ = cfg.get("exit") or "plain"
+    status = cfg.get("status", "302 Found")
+    if cond and exit_ in ("206", "416"):
+        status = cfg.get("status200", "200 OK")
+    cls = Response
+    ckw = {}
+    if cond:
+        how_c = cfg.get("cond_how") or "attr"
+        if how_c == "subclass":
+            cls = type("CondResponse", (Response,), {"default_conditional_response": True})
+        elif how_c == "ctor":
+            ckw["conditional_response"] = True
+    how = cfg.get("set") or "headerlist"
+    if how == "headerlist":
+        app = cls(status=status, headerlist=base + pairs, app_iter=[b"0123456789"], **ckw)
+    elif how == "tuple":          # headerlist setter: any iterable of pairs
+        app = cls(status=status, app_iter=[b"0123456789"], **ckw)
+        app.headerlist = tuple(base + pairs)
+    elif how == "dict":           # headerlist setter: a mapping
+        app = cls(status=status, app_iter=[b"0123456789"], **ckw)
+        app.headerlist = dict(base + pairs)
+    elif how == "ctor":
+        app = cls(status=status, headerlist=list(base), app_iter=[b"0123456789"], location=v, **ckw)
+    elif how == "attr":
+        app = cls(status=status, headerlist=list(base), app_iter=[b"0123456789"], **ckw)
+        app.location = v
+    else:
+        app = cls(status=status, headerlist=list(base), app_iter=[b"0123456789"], **ckw)
+        for k, x in pairs:
+            app.headers.add(k, x)
+    if cond and (cfg.get("cond_how") or "attr") == "attr":
+        app.conditional_response = True
+    return app
+
+
+def serve_cfg(case):
+    """-> ("ok", status, [(key, value) of every Location header]) or ("raise", class name, stage)."""
+    from webob import Request, exc
+    from webob.dec import wsgify
+    cfg = case["cfg"]
+    got = {}
+
+    def start_response(status, headers, exc_info=None):
+        got["status"] = status
+        got["headers"] = list(headers)
+
+    extra = dict(cfg.get("env_extra") or {})
+    if case["app"] == "conditional":
+        extra.update(COND_EXTRA[cfg.get("exit") or "plain"])
+    if cfg.get("accept") is not None:
+        extra["HTTP_ACCEPT"] = cfg["accept"]
+    environ = wsgi_environ(case["env"], method=cfg.get("method") or "GET", extra=extra)
+    try:
+        app = build_cfg_app(case)
+    except Exception as ex:  # noqa
+        return ("raise", type(ex).__name__, "construct")
+    serve = cfg.get("serve") or "direct"
+    try:
+        if serve == "call_application":
+            status, headers, it = Request(environ).call_application(app)
+            got["status"], got["headers"] = status, list(headers)
+            for _ in it:
+                pass
+        elif serve == "get_response":
+            r = Request(environ).get_response(app)
+            got["status"], got["headers"] = r.status, list(r.headerlist)
+        elif serve in ("wsgify", "middleware"):
+            def raiser(req_or_env, sr=None):
+                raise app
+            wrapped = wsgify(raiser) if serve == "wsgify" else exc.HTTPExceptionMiddleware(raiser)
+            for _ in wrapped(environ, start_response):
+                pass
+        else:
+            for _ in app(environ, start_response):
+                pass
+    except Exception as ex:  # noqa
+        return ("raise", type(ex).__name__, "serve")
+    return ("ok", got["status"], [(k, x) for k, x in got["headers"] if k.lower() == "location"])
+
+
+def utf8_ok(s):
+    try:
+        (s or "").encode("latin-1").decode("utf-8")
+        return True
+    except UnicodeError:
+        return False
+
+
+def check_cfg(case):
+    """The property under a non-default configuration / argument shape / outside the theorems' value domain."""
+    cfg, e, v = case["cfg"], case["env"], case.get("value")
+    kind = "move" if case["app"] == "move" else case["app"]
+    add_slash = bool(case.get("add_slash"))
+    how = cfg.get("set") or ("kw" if kind == "move" else "headerlist")
+    crlf = v is not None and ("\r" in v or "\n" in v)
+    r = serve_cfg(case)
+    desc = "%s %s(%s via %s) cfg=%s on %s://%s%s%s" % (
+        kind, case.get("class") or "", "add_slash" if add_slash else "location=%r" % (v,), how,
+        json.dumps(cfg, sort_keys=True), e["scheme"], e["host"] if e["host"] is not None else (e["name"] + ":" + e["port"]),
+        e["script"] or "", e["path"] if e["path"] is not None else "<no PATH_INFO>")
+    if r[0] == "raise":
+        # documented refusals: CR/LF through a checked door; location= together with add_slash is not generated
+        if crlf and r[1] == "ValueError" and how in ("ctor", "attr", "kw", "pos", "attr_after", "headers_and_kw"):
+            return None
+        if crlf and r[1] == "ValueError" and kind == "move" and not add_slash and has_alpha_scheme(v):
+            return None          # headers= let it in, but an absolute URL with CR/LF cannot be stored back unchanged
+        uses_path_url = kind == "move" and (add_slash or not v)
+        if uses_path_url and e["path"] is None and r[1] == "KeyError":
+            return None          # outside the statement: Request.path_info needs PATH_INFO (noted in design_notes)
+        if uses_path_url and r[1] == "UnicodeDecodeError" and cfg.get("env_extra", {}).get("webob.url_encoding", "UTF-8") == "UTF-8" \
+                and not (utf8_ok(e["path"]) and utf8_ok(e["script"])):
+            return None          # outside: SCRIPT_NAME / PATH_INFO bytes that are not valid in url_encoding
+        return ("%s:raises-%s" % (kind, r[1]), "%s raised %s while %sing" % (desc, r[1], r[2]))
+    if kind == "move" and crlf and how in ("kw", "pos", "attr_after", "headers_and_kw") and not add_slash:
+        return ("move:crlf-accepted", "%s did not raise ValueError" % desc)
+    locs = r[2]
+    if kind == "move":
+        inputs = [None if (add_slash or not v) else v]
+    else:
+        inputs = [v] + [x[1] for x in case.get("extra_locations") or []]
+    if len(locs) != len(inputs):
+        return ("%s:location-count" % kind, "%s emitted %d Location headers for %d given: %r" % (desc, len(locs), len(inputs), locs))
+    known = e["scheme"].lower() in KNOWN_SCHEMES
+    for (k, loc), given in zip(locs, inputs):
+        if given is not None and has_alpha_scheme(given):
+            if loc != given:
+                return ("%s:absolute-url-rewritten" % kind, "%s: %r must be sent unchanged, got %r" % (desc, given, loc))
+        elif known and not (given is None and e["host"] == ""):
+            # (an EMPTY Host header with add_slash / no location: Request.host_url has no host to spell - there is no
+            #  "request's own origin"; outside the statement, host_url is C13's subject)
+            got, want = whatwg_origin(loc), expected_origin(e)
+            if got != want:
+                cause = "add-slash" if add_slash else ("no-location" if given is None else classify(given))
+                return ("%s:%s" % ("response" if kind == "conditional" and False else kind, cause),
+                        "%s: emitted %r (header %r), whose origin is %r, not the request's %r" % (desc, loc, k, got, want))
+        # a wsgi.url_scheme urljoin does not know: outside the statement (PEP 3333: http / https); only "no exception"
+    return None
+
+
+def rand_cfg_case(rng, outside=False):
+    t = rng.random()
+    e = rand_env(rng, with_path=True)
+    if rng.random() < 0.25:
+        e["scheme"] = rng.choice(["HTTP", "Https", "ws", "wss", "ftp"])
+    cfg = {"method": rng.choice(["GET", "GET", "HEAD", "POST"]), "accept": rng.choice(ACCEPTS),
+           "serve": "direct"}
+    v = rand_value(rng, 6)
+    if t < 0.5:
+        case = {"kind": "cfg", "app": "move", "class": rng.choice(MOVE_CLASSES), "value": v, "env": e, "cfg": cfg}
+        cfg["set"] = rng.choice(SET_MOVE)
+        cfg["serve"] = rng.choice(["direct", "direct", "call_application", "get_response", "wsgify", "middleware"])
+        cfg["body"] = rng.choice([None, None, "explicit"])
+        cfg["subclass"] = rng.choice([None, None, "empty_body"])
+        cfg["detail"] = rng.random() < 0.3
+        cfg["template"] = rng.random() < 0.3
+        if cfg["set"] in ("headers", "headers_dict"):
+            case["key"] = rng.choice(["Location", "location", "LOCATION"])
+        r = rng.random()
+        if r < 0.2:
+            case["add_slash"] = True
+            if cfg["set"] not in ("headers", "headers_dict"):
+                case["value"] = None
+        elif r < 0.3 and cfg["set"] in ("kw", "pos"):
+            case["value"] = rng.choice([None, ""])
+        if rng.random() < 0.2:
+            cfg["env_extra"] = {"webob.url_encoding": rng.choice(["latin-1", "UTF-8"])}
+    else:
+        case = {"kind": "cfg", "app": "response" if t < 0.7 else "conditional", "value": v, "env": e, "cfg": cfg,
+                "key": rng.choice(["Location", "location", "LOCATION", "LoCaTiOn"])}
+        cfg["set"] = rng.choice(SET_RESPONSE)
+        cfg["serve"] = rng.choice(["direct", "direct", "call_application", "get_response"])
+        cfg["status"] = rng.choice(STATUSES_ANY)
+        if case["app"] == "conditional":
+            cfg["exit"] = rng.choice(list(COND_EXTRA))
+            cfg["cond_how"] = rng.choice(["attr", "ctor", "subclass"])
+            cfg["status200"] = rng.choice([200, "200 OK", "200 Fine"])
+            if cfg["method"] == "POST":
+                cfg["method"] = "GET"
+        if rng.random() < 0.3 and cfg["set"] in ("headerlist", "tuple", "headers"):
+            case["extra_locations"] = [[rng.choice(["location", "LOCATION", "Location"]), rand_value(rng, 6)]
+                                       for _ in range(rng.choice([1, 1, 2]))]
+    if outside:      # outside the theorems' request domain: what remains is checked by check_cfg
+        o = rng.random()
+        if o < 0.2:
+            e["path"] = None
+        elif o < 0.35:
+            e["path"] = rng.choice(["/\xff\xfe", "/caf\xe9", "/\xc3\xa9t\xc3\xa9"])
+        elif o < 0.5:
+            e["scheme"] = rng.choice(["coap", "h2", "x+y", ""])
+        elif o < 0.7:
+            e["host"] = rng.choice(["", "example.org:", "b\xfccher.example", "[::1]:8080", "[2001:db8::1]", "EXAMPLE.ORG:080",
+                                    "example.org.:80", "a_b.example", "xn--bcher-kva.example:8080"])
+        elif o < 0.8:
+            e["port"] = rng.choice(["", "http", "0080"])
+            e["host"] = None
+        else:
+            e["script"] = rng.choice(["/s\xe9", "/a%2fb", "/a b/c;d=e"])
+    return case
+
+
+def cfg_stage(ctx, seeds_only=False):
+    a = mkenv(host="a.example", path="/x/y", query="q=1")
+    seeds = []
+    for v in ["/a\nb", "//evil.com/x", "\t//evil.com", "web+evil://evil.example/x", "a-b.c9+d://evil.example/", "/login"]:
+        for how in SET_MOVE:
+            seeds.append({"kind": "cfg", "app": "move", "class": "HTTPFound", "value": v, "env": a, "key": "location",
+                          "cfg": {"set": how, "method": "HEAD" if how == "pos" else "GET", "accept": "application/json"}})
+        for how in SET_RESPONSE:
+            seeds.append({"kind": "cfg", "app": "response", "value": v, "env": a, "key": "LOCATION",
+                          "cfg": {"set": how, "status": 200, "serve": "get_response"}})
+        seeds.append({"kind": "cfg", "app": "conditional", "value": "/first", "env": a, "extra_locations": [["location", v]],
+                      "cfg": {"exit": "304", "cond_how": "subclass"}})
+        seeds.append({"kind": "cfg", "app": "move", "class": "HTTPSeeOther", "value": v, "env": a,
+                      "cfg": {"set": "kw", "serve": "wsgify", "body": "explicit", "subclass": "empty_body"}})
+        seeds.append({"kind": "cfg", "app": "response", "value": v, "env": dict(a, scheme="HTTP"), "cfg": {"status": "302 Go Away"}})
+        seeds.append({"kind": "cfg", "app": "response", "value": v, "env": dict(a, scheme="wss"), "cfg": {"set": "headers"}})
+    cases = list(seeds)
+    if not seeds_only:
+        rng = ctx.sub_rng("cfg")
+        cases += [rand_cfg_case(rng) for _ in range(ctx.scale(2500, 40000))]
+        cases += [rand_cfg_case(rng, outside=True) for _ in range(ctx.scale(1200, 15000))]
+    for case in cases:
+        res = check_cfg(case)
+        if res:
+            ctx.fail(res[0], res[1], case, True, "cfg")
+    ctx.oracle_count("cfg", len(cases), len(cases))
 
 
 
@@ -790,6 +1077,7 @@ def run(ctx):
     ctx.build(["Props/C14.vo"])
     seed_stage(ctx)
     history_stage(ctx, seeds_only=True)
+    cfg_stage(ctx, seeds_only=True)
     rng = ctx.sub_rng("corr")
 
     # ---- urllib.parse model vs urllib.parse
@@ -938,7 +1226,34 @@ def run(ctx):
             ctx.broken.append("correspondence one_instance_history: model and implementation disagree on %s (impl: %r)"
                               % (json.dumps(h), cases[i][1]))
 
+    # ---- the redirect classes under other argument shapes and configurations (the model only sees location / add_slash)
+    cases = []
+    for i in range(ctx.scale(400, 4000)):
+        c = rand_cfg_case(rng)
+        while c["app"] != "move" or c["env"]["scheme"] not in ("http", "https") \
+                or not all(ord(ch) < 128 for ch in (c["env"]["path"] or "") + (c["env"]["script"] or "")):
+            c = rand_cfg_case(rng)
+        r = serve_cfg(c)
+        out = Err(r[1]) if r[0] == "raise" else (r[2][0][1] if len(r[2]) == 1 else Err("location-count-%d" % len(r[2])))
+        how, v, a = c["cfg"]["set"], c.get("value"), bool(c.get("add_slash"))
+        lit = "(%s, %s, %s)" % (cenv(c["env"]), copt(None if v is None else cstr(v)), cbool(a))
+        # headers= bypasses __init__'s checks: the model's __call__ alone; every other shape: __init__ then __call__
+        cases.append(("(%s, %s)" % (cbool(how in ("headers", "headers_dict")), lit), out, {"cfg_case": c}))
+    bad = ctx.corr("http_move_shapes", IMPORTS,
+                   "(fun c => match c with (true, (e, l, a)) => join_obs (move_call e l a) "
+                   "| (false, (e, l, a)) => move_obs e l a end)", cases,
+                   in_type="(bool * (environ * option str * bool))")
+    for i in bad[:6]:
+        c = cases[i][2]["cfg_case"]
+        res = check_cfg(c)
+        if res:
+            ctx.fail(res[0], res[1], c, True, "corr")
+        else:
+            ctx.broken.append("correspondence http_move_shapes: model and implementation disagree on %s (impl: %r)"
+                              % (json.dumps(c), cases[i][1]))
+
     history_stage(ctx)
+    cfg_stage(ctx)
     oracle_sweep(ctx)
     ctx.extra["rule"] = (
         "correspondence: distinct (environ, value / header list / class) inputs, values = all strings <= 2 over "
@@ -1114,11 +1429,13 @@ def oracle_sweep(ctx):
 def replay(ctx, path):
     data = json.load(open(path))
     case = data["case"]
-    if not isinstance(case, dict) or ("path" not in case and case.get("kind") not in ("history", "order")):
+    if not isinstance(case, dict) or ("path" not in case and case.get("kind") not in ("history", "order", "cfg")):
         print("replay: nothing executable in this file (broken obligation): %s" % data.get("what"))
         return 1
     if case.get("kind") == "history":
         res = check_history(case)
+    elif case.get("kind") == "cfg":
+        res = check_cfg(case)
     elif case.get("kind") == "order":
         msg = order_check([(e, v) for e, v in case["items"]])
         res = ("response:order-dependent", msg) if msg else None
